@@ -142,7 +142,8 @@ impl Selection {
         self.items.append(items);
         self.pre_selected_watermark = max(self.pre_selected_watermark, self.items.len());
 
-        let height = self.height.load(Ordering::Relaxed);
+        // the height is unknown (0) before the first draw: assume a single row
+        let height = max(self.height.load(Ordering::Relaxed), 1);
         if self.items.len() <= self.line_cursor {
             // if not enough items, move cursor down
             self.line_cursor = max(min(self.items.len(), height), 1) - 1;
@@ -150,6 +151,8 @@ impl Selection {
 
         if self.items.len() <= self.line_cursor + self.item_cursor {
             // if not enough items, scroll the cursor a page down
+            // (the window may have shrunk since the cursor was last moved)
+            self.line_cursor = min(self.line_cursor, height - 1);
             self.item_cursor = max(self.items.len(), height) - height;
         }
     }
@@ -186,7 +189,8 @@ impl Selection {
         let mut item_cursor = self.item_cursor as i32;
         let item_len = self.items.len() as i32;
 
-        let height = self.height.load(Ordering::Relaxed) as i32;
+        // the height is unknown (0) before the first draw: assume a single row
+        let height = max(self.height.load(Ordering::Relaxed), 1) as i32;
 
         line_cursor += diff;
         if line_cursor >= height {
